@@ -13,7 +13,8 @@ from props.C04 import collect
 
 ID = "C09"
 TRUSTED = ["the in-process reference stream (real PcfgQueue + create_guesses with a collector) is what the CLI prints when nothing else is written",
-           "argparse; the OS pipe"]
+           "argparse; the OS pipe",
+           "second tie (translator): harness/translate_expand.py (ast -> Gallina, fail closed; accepted subset and what it does not model in its docstring) and the meaning coq/theories/ExpandRt.v gives to Python subscripts, slices, `if limit:` and str methods; print_guess, MarkovCracker, int() and str.upper() of one character are parameters of the generated functions"]
 ASSUMES = ["N >= 1 (the CLI rejects N < 0; N = 0 means no limit)", "--limit together with --load of an interrupted Markov level is not claimed "
            "(restore_omen does not take the limit); it is outside the runs below"]
 
